@@ -352,7 +352,14 @@ def rule_cs_accept(cx, rep, port):
             mp = match_present(e)
             if mp:
                 return (mp == 1) == bool(has_match) if has_match is not None else None
-            if isinstance(e, ast.Compare) and len(e.ops) == 1 and isinstance(e.left, ast.Call) and isinstance(e.left.func, ast.Attribute) and e.left.func.attr in ('find', 'indexOf') and e.left.args and const_value(e.left.args[0]) == '"' and _is_minus_one(e.comparators[0]) and isinstance(e.ops[0], ast.NotEq):
+            of_field = lambda x: ast.dump(x) == ast.dump(field)   # noqa: E731  (the test must look at the field, not at the line)
+            if isinstance(e, ast.Compare) and len(e.ops) == 1 and isinstance(e.left, ast.Call) and isinstance(e.left.func, ast.Attribute) and e.left.func.attr in ('find', 'indexOf') and len(e.left.args) == 1 and const_value(e.left.args[0]) == '"' and of_field(e.left.func.value):
+                c0 = e.comparators[0]
+                if (isinstance(e.ops[0], (ast.NotEq, ast.Gt)) and _is_minus_one(c0)) or (isinstance(e.ops[0], ast.GtE) and isinstance(c0, ast.Constant) and c0.value == 0 and c0.value is not False):
+                    return 'quote'
+            if isinstance(e, ast.Compare) and len(e.ops) == 1 and isinstance(e.ops[0], ast.In) and const_value(e.left) == '"' and of_field(e.comparators[0]):
+                return 'quote'     # '"' in field
+            if isinstance(e, ast.Call) and isinstance(e.func, ast.Attribute) and e.func.attr == 'includes' and len(e.args) == 1 and const_value(e.args[0]) == '"' and of_field(e.func.value):
                 return 'quote'
             return None
         wv = warn_value(warn)
@@ -680,15 +687,30 @@ def rule_cs_dispatch(cx, rep, port):
     """reader (smart_split) and writer dispatch tables are total over the five policies and pair each policy with matching split/join"""
     p = cx.port(port)
     fd = p.func('csv_utils', 'smart_split')
+    from .. import pathsem
+    pol_param = fd.args.args[2].arg
     table = {}
-    for st in fd.body:
-        if isinstance(st, ast.If) and isinstance(st.test, ast.Compare) and isinstance(st.test.comparators[0], ast.Constant):
-            pol = st.test.comparators[0].value
-            r = st.body[0]
-            if isinstance(r, ast.Return):
-                table[pol] = r.value
-        elif isinstance(st, ast.Return):
-            table['<default>'] = st.value
+    ps = pathsem.paths(fd)
+    if ps is None:
+        rep.undecided('reader dispatch', fd, 'smart_split is not summarisable as paths')
+        ps = []
+    # one row per policy name: the outcome of the path(s) that can be taken when the policy has that name
+    for name in POLICIES:
+        def leaf(e, name=name):
+            if isinstance(e, ast.Compare) and len(e.ops) == 1 and is_name(e.left, pol_param) and isinstance(e.comparators[0], ast.Constant) and isinstance(e.comparators[0].value, str):
+                if isinstance(e.ops[0], (ast.Eq, ast.Is)):
+                    return e.comparators[0].value == name
+                if isinstance(e.ops[0], (ast.NotEq, ast.IsNot)):
+                    return e.comparators[0].value != name
+            if isinstance(e, ast.Compare) and len(e.ops) == 1 and isinstance(e.ops[0], (ast.In, ast.NotIn)) and is_name(e.left, pol_param) and isinstance(e.comparators[0], (ast.Tuple, ast.List, ast.Set)) and all(isinstance(x, ast.Constant) for x in e.comparators[0].elts):
+                return (name in [x.value for x in e.comparators[0].elts]) == isinstance(e.ops[0], ast.In)
+            return None
+        outs = [q for q in ps if pathsem.consistent(q, leaf)]
+        vals = {ast.dump(q.value) if (q.kind == 'return' and q.value is not None) else '<{}>'.format(q.kind) for q in outs}
+        if len(vals) != 1 or not outs or outs[0].kind != 'return' or outs[0].value is None:
+            rep.undecided('reader dispatch', fd, 'policy {!r} does not select one outcome of smart_split ({} candidate path(s))'.format(name, len(outs)))
+            continue
+        table[name] = outs[0].value
     def desc(v):
         if v is None:
             return None
@@ -703,11 +725,12 @@ def rule_cs_dispatch(cx, rep, port):
             return 'plain-split'
         return txt
     got = {k: desc(v) for k, v in table.items()}
-    want = {'simple': 'plain-split', 'whitespace': 'whitespace-runs', 'monocolumn': 'identity', '<default>': 'quoted'}
+    want = {'simple': 'plain-split', 'whitespace': 'whitespace-runs', 'monocolumn': 'identity', 'quoted': 'quoted', 'quoted_rfc': 'quoted'}
+    wrong = {k: v for k, v in got.items() if want.get(k) != v}
     if got == want:
         rep.holds('reader dispatch', fd, 'simple=split, whitespace=runs, monocolumn=identity, quoted/quoted_rfc=quoted splitter')
-    else:
-        rep.violated('reader dispatch', fd, 'policy -> splitter table is {} (must be {})'.format(got, want))
+    elif wrong:
+        rep.violated('reader dispatch', fd, 'policy -> splitter table has {} (must be {})'.format(wrong, {k: want[k] for k in wrong}))
     # warnings of the non-quoted policies are constant False
     nonq = [table[k] for k in ('simple', 'whitespace', 'monocolumn') if k in table]
     rep.decide(all(isinstance(v, (ast.Tuple, ast.List)) and len(v.elts) == 2 and is_false(v.elts[1]) for v in nonq), 'reader dispatch warnings', fd, 'non-quoted policies never warn', 'a non-quoted policy returns a warning flag')
